@@ -3,7 +3,8 @@ R1 utilities; R2 entropic risk measure (and it is computed through logsumexp); R
 R5 quadratic CVaR objective and stationarity target; R6 bracket of its bisection; R7 entropic/isoelastic loss, OCE; module wiring.
 Added after the seeded-defect rounds: R3/R4 on every path (a shortcut for some quantile levels is a path of its own); the sample count is size(dim), never numel().
 Third round: R4 reduction axis on the min/max branches; R9 scalar targets / levels are not packed into default-dtype tensors; R10 the criteria keep the parameters they were created with.
-Rounds 4-5: public names of pfhedge.nn are the definitions of that name."""
+Rounds 4-5: public names of pfhedge.nn are the definitions of that name.
+Round 7: R8 a branch condition is one truth value for the whole sample: reductions inside it are not held to the requested axis, the element count it uses is."""
 import sympy as sp
 
 from .. import entrypoints as E
